@@ -7,7 +7,7 @@ W=/tmp/confirm-wt
 if [ "${1:-}" = "--clean" ]; then git -C /repo worktree remove --force $W 2>/dev/null; rm -rf $W; exit 0; fi
 unset RUSTFLAGS; export CARGO_NET_OFFLINE=true
 [ -d $W ] || git -C /repo worktree add -q --detach $W HEAD || exit 2
-git -C $W checkout -q --detach "$(git -C /repo rev-parse HEAD)" && git -C $W checkout -q -- . && git -C $W clean -fdq -e target
+git -C $W reset -q --hard && git -C $W checkout -q --detach "$(git -C /repo rev-parse HEAD)" && git -C $W clean -fdq -e target
 if [ -n "${1:-}" ]; then git -C $W apply "$(readlink -f "$1")" || { echo "patch does not apply"; exit 2; }; fi
 cd $W && cargo nextest run --workspace --no-fail-fast --tool-config-file pb:/w/lib/nextest.toml --profile pb --test-threads 8 --offline > $W/target-nextest.log 2>&1
 rc=$?
